@@ -37,6 +37,7 @@ Check(r) ==
          /\ r.ret = 0 /\ Len(r.str) = 101 /\ q.ok /\ q.nlog2 = w.nlog2 /\ q.r = w.r /\ q.p = w.p
          /\ r.v_same = 0 /\ r.v_other = -1 /\ r.mutated_all_fail
     [] r.op = "scrypt_nr" -> r.ret = ScryptNeedsRehash(r.str, r.ops, r.mem)
+    [] r.op = "scrypt_foreign" -> r.v = V(ScryptVerify(r.str, r.pwd, SCR!Scrypt))
 Bad == {i \in 1..Len(Recs) : ~Check(Recs[i])}
 \* NAMED DEVIATION (known finding F5): the scrypt API never compares opslimit / memlimit with its documented limits
 \* (pickparams clamps small opslimit values up and derives N from whatever it is given): an out-of-range opslimit or
